@@ -152,6 +152,19 @@ fn ilv_oracle() -> Oracle {
         for f in accounting_violations(&run.obs_end) {
             out.push(Finding::new("accounting", "sweep:accounting-broken", f));
         }
+        // a key that is still held with an expiry stays registered with exactly that expiry, in that expiry's shard:
+        // otherwise no sweep will ever find it ("every key whose current expiry has passed is eventually removed")
+        {
+            let shards = run.program.setup.shards as u64;
+            for e in run.obs_end.store.iter() {
+                if let Some(x) = e.3 {
+                    let sh = ((x / 1000) % shards) as usize;
+                    if !run.obs_end.ttl.iter().any(|t| t.0 == sh && t.1 == e.2 && t.2 == x) {
+                        out.push(Finding::new("expiry-index-out-of-sync", "sweep:index-missing-current-expiry", format!("at quiescence key {} (id #{}) expires at {} but the expiry index has no such entry: {:?}", e.0, e.2, x - T0_MS, run.obs_end.ttl)));
+                    }
+                }
+            }
+        }
         // weight reclaimed: the total equals the sum over the keys still held of their last explicitly requested weight
         {
             let mut want: i64 = 0;
